@@ -106,6 +106,32 @@ func callOp(opn string, ps []interface{}, path string) M {
 	})
 }
 
+// callTry: TryEval of (opn p1..pn) with the un-th operand's variable unavailable.
+func callTry(opn string, ps []interface{}, path string, un int) M {
+	src := "(" + opn
+	env := Env{}
+	avail := map[string]bool{}
+	for i, p := range ps {
+		src += " " + pnames[i]
+		env[pnames[i]] = p
+		avail[pnames[i]] = i != un
+	}
+	src += ")"
+	mask := 0
+	if path == "fast" {
+		mask = 4
+	}
+	cc, _ := newConf(ConfOpts{Mask: mask}, &Log{Phase: "compile"})
+	e, err := eval.Compile(cc, src)
+	if err != nil {
+		return M{"t": "ce", "v": "compile-error", "msg": err.Error()}
+	}
+	return safely(func() M {
+		v, err := e.TryEval(&eval.Ctx{VariableFetcher: &Fetcher{Vals: env, Avail: avail}})
+		return outcomeW(v, err)
+	})
+}
+
 func famOps() {
 	switch *fFor {
 	case "C17":
@@ -196,6 +222,52 @@ func opsC18() {
 				}
 			}
 			emitCall(group, ps)
+		}
+	}
+	// every alias behaves like its named form under TryEval too: one operand unavailable
+	for _, group := range aliasGroups {
+		if len(group) < 2 {
+			continue
+		}
+		isLogic := group[0] == "and" || group[0] == "or" || group[0] == "not"
+		base := []interface{}{int64(0), int64(1), int64(-1), int64(math.MaxInt64)}
+		if isLogic {
+			base = []interface{}{true, false}
+		}
+		for k := 1; k <= 3; k++ {
+			if group[0] == "not" && k > 1 {
+				continue
+			}
+			total := 1
+			for j := 0; j < k; j++ {
+				total *= len(base)
+			}
+			for c := 0; c < total; c++ {
+				ps := make([]interface{}, k)
+				x := c
+				for j := range ps {
+					ps[j] = base[x%len(base)]
+					x /= len(base)
+				}
+				for un := 0; un < k; un++ {
+					id++
+					pr := []interface{}{}
+					for _, p := range ps {
+						pr = append(pr, tvw(p))
+					}
+					outs := []interface{}{}
+					for _, name := range group {
+						for _, path := range []string{"var", "fast"} {
+							if path == "fast" && k != 2 {
+								continue
+							}
+							outs = append(outs, M{"name": name, "path": path, "res": callTry(name, ps, path, un)})
+						}
+					}
+					emit(M{"fam": "ops", "for": "C18", "kind": "tryalias", "id": id, "canon": group[0], "ps": pr, "un": un + 1, "outs": outs,
+						"src": fmt.Sprintf("TryEval (%s ...) operand %d unavailable", group[0], un+1)})
+				}
+			}
 		}
 	}
 	// division / modulo pairs, judged relationally
@@ -373,6 +445,101 @@ func opsC17() {
 			for _, str := range []bool{false, true} {
 				reuse("in", mask, n, str)
 				reuse("overlap", mask, n, str)
+			}
+		}
+	}
+	// the same questions with the elements renamed injectively into the far corners of the element
+	// types (membership and intersection only depend on which elements are equal): int64 extremes and
+	// values far apart, long strings that share long prefixes.  The judge sees the small names.
+	intMaps := []struct {
+		note string
+		f    func(int64) int64
+	}{
+		{"x -> MaxInt64 - x", func(x int64) int64 { return math.MaxInt64 - x }},
+		{"x -> MinInt64 + x", func(x int64) int64 { return math.MinInt64 + x }},
+		{"even x -> MaxInt64 - x, odd x -> -x", func(x int64) int64 {
+			if x%2 == 0 {
+				return math.MaxInt64 - x
+			}
+			return -x
+		}},
+		{"x -> x * 2^40", func(x int64) int64 { return x << 40 }},
+		{"x -> x * 2^32 + 1", func(x int64) int64 { return x<<32 + 1 }},
+	}
+	strMaps := []struct {
+		note string
+		f    func(int64) string
+	}{
+		{"x -> 70 x's + x", func(x int64) string { return strings.Repeat("x", 70) + fmt.Sprint(x) }},
+		{"x -> x + 64 y's", func(x int64) string { return fmt.Sprint(x) + strings.Repeat("y", 64) }},
+		{"even x -> 128 chars, odd x -> short", func(x int64) string {
+			if x%2 == 0 {
+				return strings.Repeat("ab", 62) + fmt.Sprintf("%04d", x)
+			}
+			return fmt.Sprint("s", x)
+		}},
+		{"x -> 63/64/65 chars by x mod 3", func(x int64) string { return fmt.Sprintf("%0*d", 63+int(x%3), x) }},
+	}
+	emitMapped := func(A, B []int64) {
+		for _, m := range intMaps {
+			ra, rb := make([]int64, len(A)), make([]int64, len(B))
+			for i, x := range A {
+				ra[i] = m.f(x)
+			}
+			for i, x := range B {
+				rb[i] = m.f(x)
+			}
+			id++
+			rec := M{"fam": "ops", "for": "C17", "kind": "overlap", "id": id, "a": tv(A), "b": tv(B), "src": "(overlap A B) int, elements renamed " + m.note}
+			outs := []interface{}{}
+			for _, path := range []string{"var", "fast"} {
+				outs = append(outs, M{"path": path, "ab": callOp("overlap", []interface{}{ra, rb}, path), "ba": callOp("overlap", []interface{}{rb, ra}, path)})
+			}
+			rec["outs"] = outs
+			emit(rec)
+			if len(A) > 0 {
+				id++
+				emit(M{"fam": "ops", "for": "C17", "kind": "in", "id": id, "a": tv(A[0]), "b": tv(B), "src": "(in v L) int, elements renamed " + m.note,
+					"outs": []interface{}{M{"path": "var", "res": callOp("in", []interface{}{m.f(A[0]), rb}, "var")}}})
+			}
+		}
+		for _, m := range strMaps {
+			ra, rb := make([]string, len(A)), make([]string, len(B))
+			for i, x := range A {
+				ra[i] = m.f(x)
+			}
+			for i, x := range B {
+				rb[i] = m.f(x)
+			}
+			id++
+			rec := M{"fam": "ops", "for": "C17", "kind": "overlap", "id": id, "a": tv(strOf(A)), "b": tv(strOf(B)), "src": "(overlap A B) string, elements renamed " + m.note}
+			outs := []interface{}{}
+			for _, path := range []string{"var", "fast"} {
+				outs = append(outs, M{"path": path, "ab": callOp("overlap", []interface{}{ra, rb}, path), "ba": callOp("overlap", []interface{}{rb, ra}, path)})
+			}
+			rec["outs"] = outs
+			emit(rec)
+			if len(A) > 0 {
+				id++
+				emit(M{"fam": "ops", "for": "C17", "kind": "in", "id": id, "a": tv(strOf(A[:1])[0]), "b": tv(strOf(B)), "src": "(in v L) string, elements renamed " + m.note,
+					"outs": []interface{}{M{"path": "var", "res": callOp("in", []interface{}{m.f(A[0]), rb}, "var")}}})
+			}
+		}
+	}
+	for _, a := range bases {
+		for _, b := range bases {
+			if len(a) == 0 || len(b) == 0 || (!thorough && r.Intn(8) > 0) {
+				continue
+			}
+			for _, tot := range []int{0, 100, 140} {
+				need := tot - len(a) - len(b)
+				if need < 0 {
+					need = 0
+				}
+				where := r.Intn(3)
+				emitMapped(pad(a, need, 1000, where), b) // the short list keeps its few far-apart elements
+				emitMapped(a, pad(b, need, 5000, (where+1)%3))
+				emitMapped(pad(a, need/2, 1000, where), pad(b, need-need/2, 5000, where))
 			}
 		}
 	}
